@@ -89,6 +89,7 @@ fn main() {
                 }),
                 verif_dir: verif_dir(),
                 write_evidence: !has("no-evidence"),
+                no_shrink: has("no-shrink"),
                 log_hashes: false,
             };
             orch::check(&spec, &a)
